@@ -155,6 +155,7 @@ KANI_CFG = {
     'q_f64': ('f64', ['doc'], 'catalogue'),
     'q_dec': ('dec', ['doc', 'fpdec'], 'catalogue'),
     'astro_f64': ('f64', ['doc'], 'astro'),
+    'fix_f64': ('f64', [], 'fixtures'),
 }
 
 
@@ -190,6 +191,13 @@ def kani_crate(cfg):
                 dm = decls.catalogue()
                 g.add_types(dm, lambda d: f'quantities::{d.module}')
                 tab = spec_tables.Table('quantities')
+            elif src == 'fixtures':
+                dm = {q.name: q for q in decls.parse_decls(os.path.join(common.VERIF, 'fixtures', 'src', 'lib.rs'))}
+                for q in dm.values():
+                    q.module = None
+                g.add_types(dm, lambda d: 'qfixtures', 'fix')
+                extra = f'qfixtures = {{ path = "{common.VERIF}/fixtures" }}\n'
+                tab = None
             else:
                 dm = decls.astro()
                 g.add_types(dm, lambda d: 'astronomical_quantities', 'astro')
@@ -201,7 +209,8 @@ def kani_crate(cfg):
                 g.type_common(t)
                 g.gen_reg(t)
                 g.gen_sym(t)
-                g.gen_tab(t, tab.units(t.name), si)
+                if tab is not None:
+                    g.gen_tab(t, tab.units(t.name), si)
                 if t.has_ref:
                     g.gen_ufs(t)
                     g.gen_fit(t)
